@@ -284,6 +284,17 @@ def replay(path):
 
 
 MUTANTS = {
+    # the input picture is no longer extended to a multiple of 8 samples before padding: for widths like 66 / 70 the columns up to
+    # the next multiple of 8 keep whatever copy_frame_buffer put there, i.e. the caller's stride padding
+    "no-min-blk-padding": ("Source/Lib/Encoder/Codec/EbPictureAnalysisProcess.c",
+                           "    pad_picture_to_multiple_of_min_blk_size_dimensions(scs_ptr, input_picture_ptr);\n    generate_padding(input_picture_ptr->buffer_y,",
+                           "    generate_padding(input_picture_ptr->buffer_y,"),
+    # the luma border is regenerated over half its width only: the outer half keeps the caller's stride padding (motion search may use it)
+    "half-luma-border": ("Source/Lib/Encoder/Codec/EbPictureAnalysisProcess.c",
+                         "            input_picture_ptr->origin_x,\n            input_picture_ptr->origin_y);\n\n    // PAD the bit inc buffer in 10bit\n"
+                         "    if (scs_ptr->static_config.encoder_bit_depth > EB_8BIT)\n        if (input_picture_ptr->buffer_bit_inc_y)",
+                         "            input_picture_ptr->origin_x / 2,\n            input_picture_ptr->origin_y);\n\n    // PAD the bit inc buffer in 10bit\n"
+                         "    if (scs_ptr->static_config.encoder_bit_depth > EB_8BIT)\n        if (input_picture_ptr->buffer_bit_inc_y)"),
     # the caller's Cr plane pointer is cached across calls and the *previous* picture's plane address is read
     "stale-cr-pointer": ("Source/Lib/Encoder/Globals/EbEncHandle.c",
                          "        src = input_ptr->cr;\n        dst = input_picture_ptr->buffer_cr + chroma_buffer_offset;\n"
